@@ -90,16 +90,43 @@ func buildSubject(ver, typ string, fs []fault) (*roomCtx, []byte, error) {
 	}
 	t := room.subjectTree(typ)
 	var late []fault // faults on the content hash itself are applied after the hash has been computed
+	var textual []fault
 	for _, f := range fs {
 		if strings.HasPrefix(f.Path, "top/hashes") {
 			late = append(late, f)
+			continue
+		}
+		if strings.HasPrefix(f.Path, "dupfirst/") || strings.HasPrefix(f.Path, "duplast/") || f.Path == "spelling" {
+			textual = append(textual, f)
 			continue
 		}
 		if !room.applyFault(t, f) {
 			return nil, nil, fmt.Errorf("fault %v cannot be applied to a %s event", f, typ)
 		}
 	}
-	raw := withContentHash(marshalTree(t), room.fmtV1)
+	text := marshalTree(t)
+	for _, f := range textual { // a top level key written twice: once well formed, once not
+		if f.Path == "spelling" {
+			continue
+		}
+		first := strings.HasPrefix(f.Path, "dupfirst/")
+		key := f.Path[strings.Index(f.Path, "/")+1:]
+		v, absent := classValue(f.Kind, f.Cls, nil)
+		if absent || len(text) < 2 {
+			continue
+		}
+		if first {
+			text = append([]byte(`{`+string(jstr(key))+`:`+string(v)+`,`), text[1:]...)
+		} else {
+			text = append(append([]byte{}, text[:len(text)-1]...), []byte(`,`+string(jstr(key))+`:`+string(v)+`}`)...)
+		}
+	}
+	raw := withContentHash(text, room.fmtV1)
+	for _, f := range textual {
+		if f.Path == "spelling" {
+			raw = respell(raw, f.Cls)
+		}
+	}
 	if len(late) > 0 {
 		var hashed struct {
 			Hashes json.RawMessage `json:"hashes"`
@@ -123,6 +150,68 @@ func buildSubject(ver, typ string, fs []fault) (*roomCtx, []byte, error) {
 		}
 	}
 	return room, raw, nil
+}
+
+// respell re-encodes a JSON document in a valid but unusual spelling: the values do not change.
+func respell(doc []byte, style string) []byte {
+	dec := json.NewDecoder(strings.NewReader(string(doc)))
+	dec.UseNumber()
+	var v interface{}
+	if err := dec.Decode(&v); err != nil {
+		return doc
+	}
+	esc := func(s string, all bool) string {
+		var b strings.Builder
+		b.WriteByte('"')
+		for _, r := range s {
+			switch {
+			case r < 0x10000 && (all || r < 0x20 || r == '"' || r == '\\'):
+				fmt.Fprintf(&b, `\u%04x`, r)
+			case r == '/' && style == "escaped_strings":
+				b.WriteString(`\/`)
+			default:
+				b.WriteString(string(r))
+			}
+		}
+		b.WriteByte('"')
+		return b.String()
+	}
+	var enc func(v interface{}, depth int) string
+	enc = func(v interface{}, depth int) string {
+		nl, sp := "", ""
+		if style == "pretty" {
+			nl, sp = "\r\n"+strings.Repeat("\t ", depth+1), " "
+		}
+		switch x := v.(type) {
+		case map[string]interface{}:
+			keys := make([]string, 0, len(x))
+			for k := range x {
+				keys = append(keys, k)
+			}
+			sort.Strings(keys)
+			if style == "reversed" {
+				sort.Sort(sort.Reverse(sort.StringSlice(keys)))
+			}
+			parts := make([]string, 0, len(keys))
+			for _, k := range keys {
+				parts = append(parts, nl+esc(k, style == "escaped_keys")+sp+":"+sp+enc(x[k], depth+1))
+			}
+			return "{" + strings.Join(parts, ",") + nl + "}"
+		case []interface{}:
+			parts := make([]string, 0, len(x))
+			for _, e := range x {
+				parts = append(parts, nl+enc(e, depth+1))
+			}
+			return "[" + strings.Join(parts, ",") + nl + "]"
+		case string:
+			return esc(x, style == "escaped_strings")
+		case json.Number:
+			return x.String()
+		}
+		b, _ := json.Marshal(v)
+		return string(b)
+	}
+	return []byte(enc(v, 0))
 }
 
 type resultExtra struct {
@@ -208,10 +297,27 @@ func runEventPipeline(r *rec, fs []fault) (s *pipeState, parsed string, mach str
 	parsed = "raw"
 	for k, op := range r.Ops {
 		if k == 0 {
-			if op != "Parse:untrusted" {
+			if op != "Parse:untrusted" && op != "Parse:trusted" && op != "Parse:headered" {
 				fatalf("pipeline does not start with a parse: %v", r.Ops)
 			}
 			ev, o := room.parse(raw)
+			if op != "Parse:untrusted" && o.Out == "ok" {
+				// the sibling constructors get bytes that the untrusted parser has accepted (an application
+				// that stores what it received and loads it again)
+				gate := ev
+				o = call(func() error {
+					var err error
+					if op == "Parse:trusted" {
+						ev, err = room.impl.NewEventFromTrustedJSON(raw, gate.Redacted())
+					} else {
+						var h []byte
+						if h, err = gate.ToHeaderedJSON(); err == nil {
+							ev, err = gmsl.NewEventFromHeaderedJSON(h, gate.Redacted())
+						}
+					}
+					return err
+				})
+			}
 			s.note(op, o)
 			if o.Out != "ok" {
 				parsed = o.Out
@@ -394,6 +500,14 @@ func signedDoc(cls string) []byte {
 	case "tampered":
 		doc["a"] = 2
 		return set(tree{"hs1": tree{"ed25519:1": sig}})
+	case "two_keys_good_first":
+		return set(tree{"hs1": tree{"ed25519:1": sig, "ed25519:2": "AAAA"}})
+	case "two_keys_bad_only":
+		return set(tree{"hs1": tree{"ed25519:0": "AAAA", "ed25519:2": garbageSig}})
+	case "two_servers":
+		return set(tree{"hs1": tree{"ed25519:1": sig}, "hs2": tree{"ed25519:1": garbageSig}, "": tree{"": ""}})
+	case "padded":
+		return set(tree{"hs1": tree{"ed25519:1": sig + "=="}})
 	}
 	raw, absent := classValue("json", cls, nil)
 	if absent {
@@ -441,11 +555,15 @@ func keyResponse(vk, ok string) []byte {
 	if v, ok := keyOf(vk); ok && vk != "valid" {
 		doc["verify_keys"].(tree)["ed25519:x"] = v
 	}
+	oldID := "ed25519:old"
+	if strings.HasPrefix(ok, "dup_") { // the ID of the current key listed among the old keys as well
+		oldID, ok = "ed25519:1", ok[4:]
+	}
 	if v, present := keyOf(ok); present {
 		if m, isObj := v.(tree); isObj {
 			m["expired_ts"] = 4102444800000
 		}
-		doc["old_verify_keys"] = tree{"ed25519:old": v}
+		doc["old_verify_keys"] = tree{oldID: v}
 	}
 	signed, err := gmsl.SignJSON("hs1", "ed25519:1", serverKeys["hs1"], marshalTree(doc))
 	if err != nil {
@@ -528,6 +646,8 @@ func headerLines(name string) string {
 			h += `,destination="hs9"`
 		case "x":
 			h += `,destination="hs3"`
+		case "s": // the destination is the origin itself
+			h += `,destination="` + origin + `"`
 		}
 		out = append(out, h)
 	}
@@ -580,10 +700,10 @@ func rawInput(r *rec) []byte {
 		if r.C1 == "valid" {
 			return []byte(validIDs[r.K1])
 		}
-		sg, _ := sigilOf(r.K1)
-		s, ok := idString(sg, r.C1)
-		if !ok {
-			fatalf("unknown identifier class %q", r.C1)
+		raw, absent := classValue(r.K1, r.C1, jstr(validIDs[r.K1]))
+		var s string
+		if absent || json.Unmarshal(raw, &s) != nil {
+			fatalf("identifier class %q is not a string", r.C1)
 		}
 		return []byte(s)
 	case "json", "body":
